@@ -1,6 +1,8 @@
 pub mod c01;
+pub mod c02;
 pub mod c03;
 pub mod c04;
+pub mod c05;
 pub mod c06;
 pub mod c07;
 pub mod c08;
@@ -11,6 +13,7 @@ pub mod c15;
 pub mod c12;
 pub mod c13;
 pub mod c14;
+pub mod c18;
 pub mod common;
 
 use crate::report::Report;
@@ -19,8 +22,10 @@ pub fn run(id: &str, tier: &str) -> i32 {
     let rep = Report::new(id, tier);
     match id {
         "C01" => c01::run(&rep),
+        "C02" => c02::run(&rep),
         "C03" => c03::run(&rep),
         "C04" => c04::run(&rep),
+        "C05" => c05::run(&rep),
         "C07" => c07::run(&rep),
         "C08" => c08::run(&rep),
         "C09" => c09::run(&rep),
@@ -29,6 +34,7 @@ pub fn run(id: &str, tier: &str) -> i32 {
         "C15" => c15::run(&rep),
         "C12" => c12::run(&rep),
         "C13" => c13::run(&rep),
+        "C18" => c18::run(&rep),
         "C14" => c14::run(&rep),
         _ => {
             eprintln!("unknown property {id}");
